@@ -77,29 +77,14 @@ theorem majEqWith_iff (atol rtol : Rat) (a b : MOp) (order : List MTerm)
       simp [majTermClose, h1, h2]
   · intro h t _; exact h t
 
-theorem majTermClose_sound (atol rtol : Rat) (h : 0 ≤ atol) (a b : MOp) (t : MTerm)
-    (hc : majTermClose atol rtol a b t = true) :
-    Spec.C02.majCoefClose atol rtol (Dict.get? a t) (Dict.get? b t) = true := by
-  unfold majTermClose at hc
-  cases ha : Dict.get? a t <;> cases hb : Dict.get? b t <;> simp only [ha, hb] at hc <;>
-    simp only [Spec.C02.majCoefClose]
-  · exact (npIsclose_zero_iff atol rtol h _).1 hc
-  · exact (npIsclose_zero_iff atol rtol h _).1 hc
-  · exact (majClose_iff atol rtol _ _).2 (Or.inl hc)
-
-theorem majTermClose_complete (atol rtol : Rat) (h : 0 ≤ atol) (a b : MOp) (t : MTerm)
-    (hw : ∀ x y, Dict.get? a t = some x → Dict.get? b t = some y →
-      npIsclose atol rtol y x = true → npIsclose atol rtol x y = true)
-    (hc : Spec.C02.majCoefClose atol rtol (Dict.get? a t) (Dict.get? b t) = true) :
-    majTermClose atol rtol a b t = true := by
+theorem majTermClose_iff (atol rtol : Rat) (h : 0 ≤ atol) (a b : MOp) (t : MTerm) :
+    majTermClose atol rtol a b t = true ↔
+      Spec.C02.majCoefClose atol rtol (Dict.get? a t) (Dict.get? b t) = true := by
   unfold majTermClose
-  cases ha : Dict.get? a t <;> cases hb : Dict.get? b t <;> simp only [ha, hb] at hc ⊢ <;>
-    simp only [Spec.C02.majCoefClose] at hc
-  · exact (npIsclose_zero_iff atol rtol h _).2 hc
-  · exact (npIsclose_zero_iff atol rtol h _).2 hc
-  · rcases (majClose_iff atol rtol _ _).1 hc with h1 | h1
-    · exact h1
-    · exact hw _ _ ha hb h1
+  cases ha : Dict.get? a t <;> cases hb : Dict.get? b t <;> simp only [Spec.C02.majCoefClose]
+  · exact npIsclose_zero_iff atol rtol h _
+  · exact npIsclose_zero_iff atol rtol h _
+  · rw [majClose_iff, Bool.or_eq_true]
 
 theorem majCoefClose_symm (atol rtol : Rat) (x y : Option GQ) :
     Spec.C02.majCoefClose atol rtol x y = Spec.C02.majCoefClose atol rtol y x := by
